@@ -39,8 +39,8 @@ def shards(tier, seed):
 def cases(shard, rnd):
     if shard['what'] == 'method':
         for idx in shard['indexes']:
-            if common.skip_under_config(idx):
-                continue
+            # (Basic.RecoverAsync under -W error is NOT skipped here: the
+            # frames are written by the generator, the library only decodes)
             spec = refspec.METHODS[idx]
             has_table = 'table' in spec.arg_types
             for k in range(shard['per'] * (4 if has_table else 1)):
